@@ -17,6 +17,7 @@ from amaranth import *
 from amaranth.hdl import Array
 
 KIND_NONE, KIND_SETUP, KIND_IN, KIND_OUT, KIND_SOF, KIND_HSK, KIND_PING = 0, 1, 2, 3, 4, 5, 6
+KIND_SETUP_TOKEN = 7      # a SETUP token whose DATA0 packet never appears (transaction aborted / data lost before SYNC)
 
 
 class SlottedHost:
@@ -75,7 +76,7 @@ class SlottedHost:
                         m.d.comb += cur.eq(lst[i])
         legal = Const(1)
         for i in range(n):
-            legal = legal & (self.kind[i] <= KIND_PING) & (self.olen[i] <= self.max_out)
+            legal = legal & (self.kind[i] <= KIND_SETUP_TOKEN) & (self.olen[i] <= self.max_out)
         m.d.comb += self.legal.eq(legal)
 
         # token fields and CRCs (repo's own functions, staged)
@@ -100,7 +101,7 @@ class SlottedHost:
             wires.append(w)
         tok_pid = Signal(8, name=f"{p}_tokpid")
         with m.Switch(self.cur_kind):
-            with m.Case(KIND_SETUP):
+            with m.Case(KIND_SETUP, KIND_SETUP_TOKEN):
                 m.d.comb += tok_pid.eq(0x2D)
             with m.Case(KIND_IN):
                 m.d.comb += tok_pid.eq(0x69)
@@ -111,7 +112,7 @@ class SlottedHost:
             with m.Case(KIND_PING):
                 m.d.comb += tok_pid.eq(0xB4)
         is_tok = (self.cur_kind == KIND_SETUP) | (self.cur_kind == KIND_IN) | (self.cur_kind == KIND_OUT) | \
-                 (self.cur_kind == KIND_SOF) | (self.cur_kind == KIND_PING)
+                 (self.cur_kind == KIND_SOF) | (self.cur_kind == KIND_PING) | (self.cur_kind == KIND_SETUP_TOKEN)
         a, v, d = self.rx_active, self.rx_valid, self.rx_data
         # data phase length
         dlen = Signal(4, name=f"{p}_dlen")
@@ -218,6 +219,7 @@ SLOT_OPTIONS = {
     "Q": dict(kind=KIND_OUT, flag=0, dpid=0),   # OUT + valid DATA0
     "N": dict(kind=KIND_NONE, flag=0),     # idle slot
     "G": dict(kind=KIND_PING, flag=0),     # PING token (no data phase)
+    "T": dict(kind=KIND_SETUP_TOKEN, flag=0),   # SETUP token without its data packet
     "F": dict(kind=KIND_SOF, flag=0),      # start of frame
     "f": dict(kind=KIND_SOF, flag=1),      # start of frame with corrupted CRC5
 }
